@@ -17,7 +17,7 @@ it.  With P1 <= 2*cap this is the property's bound  granted(t2) - granted(t1) <=
 """
 import z3
 
-from pyvc.runner import Unit, Property
+from pyvc.runner import Unit, Property, Bounded
 from pyvc.interp import Interp
 from pyvc.values import PyRaise
 from .common import Clock, pyobj, model_real, Namespace
@@ -146,6 +146,10 @@ def u_drain(ctx, index):
     deficit = cost - (o['_tokens'] + cost)
     ctx.check('C20/TokenBucket.drain/sleep_bound', d <= deficit / s.rate)
   ctx.check('C20/TokenBucket.drain/at_most_one_sleep', z3.BoolVal(len(s.clock.sleeps) <= 1))
+  if not blocking:
+    ctx.check('C20/TokenBucket.drain/nonblocking_never_sleeps', z3.BoolVal(len(s.clock.sleeps) == 0))
+    # a refusal costs nothing: the balance is what the refill left (never below the entry balance)
+    ctx.check('C20/TokenBucket.drain/refusal_is_free', z3.Implies(z3.Not(rt), o['_tokens'] >= s.tok0))
 
 
 def u_setcap(ctx, index):
@@ -248,6 +252,9 @@ def build():
                     expect_covers=['iteration/written', 'create/created']))
   return Property(
     'C20', units,
+    bounded=[Bounded('C20/native/token_bucket_cross_check', 'replay/bucket_native.py', ['--n', '2000', '--len', '5'], ['--n', '60000', '--len', '6'],
+                     "the real TokenBucket on a virtual clock: every sequence of <= 5 (quick) / 6 (thorough) operations over {non-blocking / blocking acquisition, peek, advance 0 / 0.4 / 1 token's worth, limit change} for 4 (capacity, rate) pairs, plus 2000 / 60000 seeded random sequences of 5..80 operations for capacities 1..1000, rates 1/60..1000 per second, clock steps 0 .. 1e6 s: every window between two grants (without a limit change inside) holds at most rate x length + 2 x capacity grants, a blocking acquisition sleeps at most deficit / rate, a non-blocking one never sleeps, at most 2 x new capacity acquisitions succeed instantly after a limit change",
+                     "floats instead of the reals of the proof (A-REAL): cross-check of the potential-function argument on IEEE doubles with tolerance 1e-6")],
     trusted_base=['A-ENGINE', 'A-SMT', 'A-REAL', 'A-CLOCK'],
     assumptions=[
       "A-REAL: float arithmetic in TokenBucket is real arithmetic (no rounding)",
